@@ -137,9 +137,11 @@ def _work(args):
         "per_k": {},
         "samples": [],
         "aborted": collections.Counter(),
+        "known_hits": collections.Counter(),
         "error": None,
         "cpu_s": 0.0,
     }
+    known = load_known(prop)
     t0 = time.process_time()
     try:
         for k in ks:
@@ -159,6 +161,16 @@ def _work(args):
                 agg["aborted"][res["aborted"]] += 1
             if k in want_digests:
                 agg["per_k"][k] = res["digest"]
+            if res["violations"] and known:
+                # known findings are counted here so that they can never crowd out an unknown violation
+                rest = []
+                for v in res["violations"]:
+                    e = match_known(v, known)
+                    if e is not None:
+                        agg["known_hits"][e["what"]] += 1
+                    else:
+                        rest.append(v)
+                res["violations"] = rest
             if res["violations"]:
                 agg["nviol"] += 1
                 if len(agg["violations"]) < 40:
@@ -270,7 +282,7 @@ def main_check(engine, tier, verif_seed, wall_cap=None, workers=None):
     total = {
         "n": 0, "stats": collections.Counter(), "events": 0, "sim_time": 0.0, "digests": set(),
         "states": set(), "nontrivial": set(), "violations": [], "nviol": 0, "per_k": {},
-        "samples": [], "aborted": collections.Counter(), "cpu_s": 0.0,
+        "samples": [], "aborted": collections.Counter(), "cpu_s": 0.0, "known_hits": collections.Counter(),
     }
     truncated = False
     futs = []
@@ -310,6 +322,7 @@ def main_check(engine, tier, verif_seed, wall_cap=None, workers=None):
                 total["nontrivial"] |= agg["nontrivial"]
                 total["nviol"] += agg["nviol"]
                 total["aborted"].update(agg["aborted"])
+                total["known_hits"].update(agg["known_hits"])
                 total["cpu_s"] += agg["cpu_s"]
                 if len(total["violations"]) < 400:
                     total["violations"].extend(agg["violations"])
@@ -365,7 +378,7 @@ def main_check(engine, tier, verif_seed, wall_cap=None, workers=None):
     # ---- violations ---------------------------------------------------------
     known = load_known(prop)
     groups = collections.OrderedDict()
-    known_hits = collections.Counter()
+    known_hits = collections.Counter(total["known_hits"])
     for rec in sorted(total["violations"], key=lambda r: (len(r["tape"]), r["k"])):
         for v in rec["violations"]:
             e = match_known(v, known)
@@ -459,6 +472,9 @@ def main_check(engine, tier, verif_seed, wall_cap=None, workers=None):
         print(f"[{prop}] NOTE probes stuck at zero: {zero}")
     if reported:
         sys.exit(1)
+    fatal = {k: total["stats"][k] for k in getattr(engine, "fatal_stats", []) if total["stats"].get(k)}
+    if fatal:
+        harness_exit(f"{prop}: the simulator no longer refines the real code ({fatal}); nothing it reports is trusted")
     print(f"[{prop}] OK: property held on everything explored", flush=True)
     sys.exit(0)
 
